@@ -382,7 +382,7 @@ func keyString(v Val) (string, bool) {
 			return "I<nil>", true
 		}
 		ks, ok := keyString(x.V)
-		return "I" + x.T.String() + "|" + ks, ok
+		return "I" + typeName(x.T) + "|" + ks, ok
 	case Ptr:
 		return fmt.Sprintf("p%p", x.C), true
 	case *StructV:
